@@ -19,6 +19,8 @@
            C06_agree_tcp_step / C06_lrn_ok_tcp_step (the invariants are kept by a TCP chunk),
            C06_tcp_accept_records (what EvTcpAccept files)
    Part G  example and sensitivity checks
+   Part H  C06_dialled_example: a host learned over a connection THE PROXY DIALLED; the port-less own Via /
+           Record-Route is what the model emits and what the judge accepts (and only then)
    No axioms, no admits.
 
    HYPOTHESES THAT THE UDP THEOREM DID NOT NEED
@@ -29,8 +31,10 @@
      H_from   cn_from cn = {| t_kind := KTcpListen; t_addr := lc_addr lc; t_port := lc_tcp lc |}: the connection is
               an ACCEPTED one.  Needed: the model learns / compares own entries with cn_from; the judge always
               uses (TCP, lc_addr, lc_tcp).  For a dialled connection cn_from is a KTcpConn transport with
-              another port and the two sides differ.
-     PORTS    1 <= lc_tcp lc <= 65535 and 0 <= lc_udp lc <= 65535 (the UDP theorem: 1 <= lc_udp, 0 <= lc_tcp):
+              port 0: the judge follows (no own entry, port-less identity: Part H), that is not proved here.
+     H_mark   (li < dial_mark)%nat: the judge's record is one of an ACCEPTED connection (a dialled one is filed
+              with the listen entry + SpecProxy.dial_mark, and j_input / ji_dialled / j_learn read the mark).
+     PORTS   1 <= lc_tcp lc <= 65535 and 0 <= lc_udp lc <= 65535 (the UDP theorem: 1 <= lc_udp, 0 <= lc_tcp):
               the transport that is learned must carry a port (own Record-Route text, jv_port of the own Via).
      step level only:
      H_find   find (fun y => Nat.eqb (cn_id y) cid) (st_conns st) = Some cn  (which record the model uses),
@@ -242,7 +246,7 @@ Definition jin_tcp (li cid : nat) (ip : bytes) (port : Z) (data : bytes) : jin :
   {| ji_li := li; ji_tcp := true; ji_conn := cid; ji_src := ip; ji_sport := port; ji_data := data |}.
 
 Lemma judge_C06_tcp_unfold pc st cid li ip port data outs closed :
-  find (fun y => Nat.eqb (fst y) cid) (js_conns st) = Some (cid, (li, ip, port)) ->
+  find (fun y => Nat.eqb (fst y) cid) (js_conns st) = Some (cid, (li, ip, port)) -> (li < dial_mark)%nat ->
   judge_C06_event pc st (EvTcpData cid data) outs closed =
   match j_read data, nth_opt (c_listens (pc_cfg pc)) li with
   | Some m, Some lc =>
@@ -260,7 +264,11 @@ Lemma judge_C06_tcp_unfold pc st cid li ip port data outs closed :
       else O
   | _, _ => O
   end.
-Proof. intros H. unfold judge_C06_event, j_input. rewrite H. reflexivity. Qed.
+Proof.
+  intros H HMk. unfold judge_C06_event. rewrite (C07_bridge.j_input_accepted st cid li ip port data H HMk).
+  cbv beta iota zeta delta [ji_data ji_li ji_tcp].
+  rewrite (C07_bridge.ji_dialled_accepted st cid li ip port data H HMk). reflexivity.
+Qed.
 
 Lemma judge_C06_nil pc st ev closed : judge_C06_event pc st ev [] closed = 0%nat.
 Proof.
@@ -271,25 +279,26 @@ Proof.
   destruct (_ && _)%bool; [|reflexivity].
   destruct (j_request jm) as [q|]; [|reflexivity].
   destruct (opt_all _); [|reflexivity].
-  destruct (j_choose _ _ _ _); reflexivity.
+  destruct (j_choose_d _ _ _ _ _); reflexivity.
 Qed.
 
 (* ====================================================================== Part C: the learned tables *)
 (* the judge's j_learn (listen entry, TCP) and the model's learning with the KTcpListen transport keep the
    tables in agreement: THE SOURCE IS LEARNED WITH THE TCP LISTENER *)
 Lemma j_learn_agree_tcp c stj li cid lc src sport data jin m x :
+  conn_dialled stj cid = false -> (li < dial_mark)%nat ->
   agree_learned c (js_learned stj) (x_learned x) ->
   nth_opt (c_listens c) li = Some lc ->
   j_is_response jin = false -> is_request m = true -> amem src (ps_backends (x_p x)) = false ->
   opt_all (map j_via (j_flat_via (jm_headers jin))) = Some (map B7.jv_of (C07.flat_view (C07.via_hdrs m))) ->
   agree_learned c (j_learn stj (jin_tcp li cid src sport data) jin) (learned_after src (tcp_transport lc) m x).
 Proof.
-  intros A N Rj Rm NB EV. unfold j_learn, learned_after, jin_tcp. rewrite Rj, Rm, NB.
-  cbn [andb negb ji_src ji_li ji_tcp].
+  intros CD HMk A N Rj Rm NB EV. unfold j_learn, learned_after, jin_tcp, ji_dialled. rewrite Rj, Rm, NB.
+  cbn [andb negb ji_src ji_li ji_tcp ji_conn]. rewrite CD. cbv iota.
   rewrite (hosts_agree _ _ EV), map_map, all_vias_flat.
   change (map (fun x0 : via_param => jv_host (B7.jv_of x0))) with (map v_host).
   apply (agree_fold c li true (tcp_transport lc)); [|exact A].
-  unfold jtrans_of. rewrite N. reflexivity.
+  unfold jident_of, jtrans_of. rewrite (proj2 (Nat.leb_gt dial_mark li) HMk). cbn [andb]. rewrite N. reflexivity.
 Qed.
 
 (* ====================================================================== Part D: the bridge under ident_agree_g *)
@@ -306,6 +315,7 @@ Theorem C06_judge_bridge_tcp_partial :
   nth_opt (c_listens (pc_cfg pc)) li = Some lc -> e_cfg e = pc_cfg pc -> e_lc e = lc ->
   e_branch e = branch_of (js_event stj) ->
   find (fun y => Nat.eqb (fst y) cid) (js_conns stj) = Some (cid, (li, cn_peer cn, cn_peer_port cn)) ->
+  (li < dial_mark)%nat ->
   cn_from cn = {| t_kind := KTcpListen; t_addr := lc_addr lc; t_port := lc_tcp lc |} ->
   j_read data = Some jin -> parse_message data = Ok (m, rest) ->
   B7.via_domain m -> B7.src_ok (cn_peer cn) -> B7.branch_ok (e_branch e) ->
@@ -320,8 +330,8 @@ Theorem C06_judge_bridge_tcp_partial :
   forall vis, judge_C06_event pc stj (EvTcpData cid data) (map B13.labelled (filter vis pre)) closed = 0%nat.
 Proof.
   intros pc stj cid li lc cn data closed jin m rest e x x' pre
-         N He Hlc Hbe HC HFr J P HV Hsrc Hbr Ha Hu Ht HLn IA EP EO vis.
-  rewrite (judge_C06_tcp_unfold pc stj cid li _ _ data _ closed HC), J, N.
+         N He Hlc Hbe HC HMk HFr J P HV Hsrc Hbr Ha Hu Ht HLn IA EP EO vis.
+  rewrite (judge_C06_tcp_unfold pc stj cid li _ _ data _ closed HC HMk), J, N.
   destruct (negb (j_is_response jin) && jm_has_cl jin && (negb true || single_message jin))%bool eqn:Cond;
     [|reflexivity].
   destruct (j_request jin) as [q|] eqn:Q; [|reflexivity].
@@ -509,6 +519,7 @@ Theorem C06_judge_bridge_tcp_msg :
   nth_opt (c_listens (pc_cfg pc)) li = Some lc -> e_cfg e = pc_cfg pc -> e_lc e = lc ->
   e_branch e = branch_of (js_event stj) ->
   find (fun y => Nat.eqb (fst y) cid) (js_conns stj) = Some (cid, (li, cn_peer cn, cn_peer_port cn)) ->
+  (li < dial_mark)%nat ->
   cn_from cn = {| t_kind := KTcpListen; t_addr := lc_addr lc; t_port := lc_tcp lc |} ->
   j_read data = Some jin -> parse_message data = Ok (m, rest) ->
   agree_learned (pc_cfg pc) (js_learned stj) (x_learned x) ->
@@ -523,9 +534,9 @@ Theorem C06_judge_bridge_tcp_msg :
   forall vis, judge_C06_event pc stj (EvTcpData cid data) (map B13.labelled (filter vis pre)) closed = 0%nat.
 Proof.
   intros pc stj cid li lc cn data closed jin m rest e x x' pre
-         N He Hlc Hbe HC HFr J P AG NB HV Dom TD RD Hsrc Hbr Ha Hu Ht HLn EP EO vis.
+         N He Hlc Hbe HC HMk HFr J P AG NB HV Dom TD RD Hsrc Hbr Ha Hu Ht HLn EP EO vis.
   apply (C06_judge_bridge_tcp_partial pc stj cid li lc cn data closed jin m rest e x x' pre
-           N He Hlc Hbe HC HFr J P HV Hsrc Hbr Ha Hu Ht HLn); [|exact EP|exact EO].
+           N He Hlc Hbe HC HMk HFr J P HV Hsrc Hbr Ha Hu Ht HLn); [|exact EP|exact EO].
   intros q Q.
   destruct (read_agree _ _ _ _ J P) as (_ & _ & _ & _ & PS).
   destruct (B7.read_agree_all _ _ _ _ J P) as (EH & PR).
@@ -538,7 +549,8 @@ Proof.
   { rewrite EH. apply B7.via_read. eapply Forall_impl; [|exact G0]. intros h Gh _. exact Gh. }
   apply ident_agree_of_g.
   - exact (hop_agree_g true (pc_cfg pc) lc (tcp_transport lc) jin m q eq_refl eq_refl EH PR PS Q Dom TD RD).
-  - exact (j_learn_agree_tcp (pc_cfg pc) stj li cid lc (cn_peer cn) (cn_peer_port cn) data jin m x AG N Rj Hq NB EV).
+  - exact (j_learn_agree_tcp (pc_cfg pc) stj li cid lc (cn_peer cn) (cn_peer_port cn) data jin m x
+             (C07_bridge.conn_dialled_accepted stj cid li _ _ HC HMk) HMk AG N Rj Hq NB EV).
 Qed.
 
 (* only keep-alive blanks left: the reader waits, nothing happens, whatever the fuel *)
@@ -574,6 +586,7 @@ Theorem C06_judge_bridge_tcp_step :
   nth_opt (c_listens (pc_cfg pc)) li = Some lc ->
   find (fun y => Nat.eqb (cn_id y) cid) (st_conns st) = Some cn ->
   find (fun y => Nat.eqb (fst y) cid) (js_conns stj) = Some (cid, (li, cn_peer cn, cn_peer_port cn)) ->
+  (li < dial_mark)%nat ->
   cn_li cn = li ->
   cn_from cn = {| t_kind := KTcpListen; t_addr := lc_addr lc; t_port := lc_tcp lc |} ->
   j_read data = Some jin -> parse_message data = Ok (m, rest) -> trim_left rest = [] ->
@@ -588,7 +601,7 @@ Theorem C06_judge_bridge_tcp_step :
   forall vis, judge_C06_event pc stj (EvTcpData cid data) (map B13.labelled (filter vis outs)) closed = 0%nat.
 Proof.
   intros pc stj fx now br st st' outs cid li lc cn data closed jin m rest
-         N HF HC HLi HFr J P HT Hbe AG NB HV Dom TD RD Hsrc Hbr Ha Hu Ht HLn H vis.
+         N HF HC HMk HLi HFr J P HT Hbe AG NB HV Dom TD RD Hsrc Hbr Ha Hu Ht HLn H vis.
   subst li. cbn [proxy_step] in H. rewrite HF in H.
   destruct (cn_open cn); [|injection H as _ <-; apply judge_C06_nil].
   cbv zeta in H. rewrite N in H. unfold run_ctx in H.
@@ -597,17 +610,18 @@ Proof.
   match type of H with context [process_message ?e ?a ?b ?f ?r ?t ?mm ?xx] =>
     destruct (process_message e a b f r t mm xx) as [x'| |] eqn:PM; try discriminate H;
     pose proof (C06_judge_bridge_tcp_msg pc stj cid (cn_li cn) lc cn data closed jin m rest e xx x' (x_outs x')
-                  N eq_refl eq_refl Hbe HC HFr J P AG (NB p eq_refl) HV Dom TD RD Hsrc Hbr Ha Hu Ht HLn PM eq_refl) as K end.
+                  N eq_refl eq_refl Hbe HC HMk HFr J P AG (NB p eq_refl) HV Dom TD RD Hsrc Hbr Ha Hu Ht HLn PM eq_refl) as K end.
   injection H as _ <-. apply K.
 Qed.
 
 (* THE AGREEMENT IS KEPT by a TCP chunk: the judge's bookkeeping after the event (js_step_c: j_learn with
    (li, true)) against the model's learned table after the step (learn with the KTcpListen transport). *)
 Lemma js_learned_tcp_step stj cid data outs closed li ip port jin :
-  find (fun y => Nat.eqb (fst y) cid) (js_conns stj) = Some (cid, (li, ip, port)) -> j_read data = Some jin ->
+  find (fun y => Nat.eqb (fst y) cid) (js_conns stj) = Some (cid, (li, ip, port)) -> (li < dial_mark)%nat ->
+  j_read data = Some jin ->
   js_learned (js_step_c stj (EvTcpData cid data) outs closed) = j_learn stj (jin_tcp li cid ip port data) jin.
 Proof.
-  intros H J. unfold js_step_c, js_step, j_input. rewrite H.
+  intros H HMk J. unfold js_step_c, js_step. rewrite (C07_bridge.j_input_accepted stj cid li ip port data H HMk).
   cbv beta iota zeta delta [js_learned ji_data]. rewrite J. reflexivity.
 Qed.
 
@@ -616,6 +630,7 @@ Theorem C06_agree_tcp_step :
   nth_opt (c_listens (pc_cfg pc)) li = Some lc ->
   find (fun y => Nat.eqb (cn_id y) cid) (st_conns st) = Some cn ->
   find (fun y => Nat.eqb (fst y) cid) (js_conns stj) = Some (cid, (li, cn_peer cn, cn_peer_port cn)) ->
+  (li < dial_mark)%nat ->
   cn_li cn = li -> cn_open cn = true ->
   cn_from cn = {| t_kind := KTcpListen; t_addr := lc_addr lc; t_port := lc_tcp lc |} ->
   j_read data = Some jin -> parse_message data = Ok (m, rest) -> trim_left rest = [] ->
@@ -626,8 +641,9 @@ Theorem C06_agree_tcp_step :
   agree_learned (pc_cfg pc) (js_learned (js_step_c stj (EvTcpData cid data) outs' closed)) (st_learned st').
 Proof.
   intros pc stj fx now br st st' outs cid li lc cn data jin m rest outs' closed
-         N HF HC HLi HO HFr J P HT AG (p & NP & NB) HV H.
-  rewrite (js_learned_tcp_step stj cid data outs' closed li _ _ jin HC J).
+         N HF HC HMk HLi HO HFr J P HT AG (p & NP & NB) HV H.
+  rewrite (js_learned_tcp_step stj cid data outs' closed li _ _ jin HC HMk J).
+  pose proof (C07_bridge.conn_dialled_accepted stj cid li _ _ HC HMk) as CD.
   subst li. cbn [proxy_step] in H. rewrite HF, HO in H.
   cbv zeta in H. rewrite N in H. unfold run_ctx in H. rewrite NP in H.
   rewrite (tcp_messages_single _ cn data _ m rest P HT) in H.
@@ -649,7 +665,7 @@ Proof.
     { rewrite EH. apply B7.via_read. eapply Forall_impl; [|exact G0]. intros h Gh _. exact Gh. }
     pose proof (j_learn_agree_tcp (pc_cfg pc) stj (cn_li cn) cid lc (cn_peer cn) (cn_peer_port cn) data jin m
                   {| x_learned := st_learned st; x_p := p; x_conns := st_conns st; x_world := st_world st; x_outs := [] |}
-                  AG N Rj Hq NB EV) as K.
+                  CD HMk AG N Rj Hq NB EV) as K.
     unfold learned_after in K. cbn [x_p x_learned] in K. exact K.
 Qed.
 
@@ -831,7 +847,7 @@ Example C06_bridge_tcp_ex :
 Proof.
   refine (C06_judge_bridge_tcp_step t6_pc t6_js1 all_fixed 1000%Z (branch_of 1) t6_st1 t6_st2 t6_outs
             0%nat 0%nat t6_lc t6_cn t6_req [] t6_jin (parsed t6_req) crlf
-            t6_hyp_listener t6_hyp_model_conn t6_hyp_judge_conn eq_refl eq_refl t6_hyp_read t6_hyp_parse t6_hyp_rest
+            t6_hyp_listener t6_hyp_model_conn t6_hyp_judge_conn C07_bridge.zero_below_mark eq_refl eq_refl t6_hyp_read t6_hyp_parse t6_hyp_rest
             _ t6_hyp_agree t6_hyp_nb t6_hyp_via t6_hyp_routes t6_hyp_to t6_hyp_ruri _ _ _ _ _ t6_hyp_lrn t6_run_ok).
   - vm_compute. reflexivity.
   - split; vm_compute; reflexivity.
@@ -879,7 +895,7 @@ Example C06_bridge_tcp_msg_ex :
 Proof.
   refine (C06_judge_bridge_tcp_msg t6_pc t6_js1 0%nat 0%nat t6_lc t6_cn t6_req [] t6_jin (parsed t6_req) crlf
             t6_e t6_x t6_x' (x_outs t6_x')
-            t6_hyp_listener eq_refl eq_refl _ t6_hyp_judge_conn eq_refl t6_hyp_read t6_hyp_parse
+            t6_hyp_listener eq_refl eq_refl _ t6_hyp_judge_conn C07_bridge.zero_below_mark eq_refl t6_hyp_read t6_hyp_parse
             t6_hyp_agree t6_p_nb t6_hyp_via t6_hyp_routes t6_hyp_to t6_hyp_ruri _ _ _ _ _ t6_hyp_lrn
             (proj1 t6_msg_ok) eq_refl).
   - vm_compute. reflexivity.
@@ -901,7 +917,7 @@ Proof.
   split; [|split; [vm_compute; reflexivity|split; [vm_compute; reflexivity|]]].
   - exact (C06_agree_tcp_step t6_pc t6_js1 all_fixed 1000%Z (branch_of 1) t6_st1 t6_st2 t6_outs 0%nat 0%nat
              t6_lc t6_cn t6_req t6_jin (parsed t6_req) crlf [] []
-             t6_hyp_listener t6_hyp_model_conn t6_hyp_judge_conn eq_refl eq_refl eq_refl t6_hyp_read t6_hyp_parse
+             t6_hyp_listener t6_hyp_model_conn t6_hyp_judge_conn C07_bridge.zero_below_mark eq_refl eq_refl eq_refl t6_hyp_read t6_hyp_parse
              t6_hyp_rest t6_hyp_agree (ex_intro _ t6_p (conj t6_p_eq t6_p_nb)) t6_hyp_via t6_run_ok).
   - refine (C06_lrn_ok_tcp_step all_fixed (pc_cfg t6_pc) 1000%Z (branch_of 1) t6_st1 t6_st2 t6_outs 0%nat t6_lc
               t6_cn t6_req t6_hyp_model_conn eq_refl _ _ t6_hyp_lrn t6_run_ok).
@@ -934,6 +950,151 @@ Example C06_bridge_tcp_ex_unknown_conn :
 Proof. vm_compute. reflexivity. Qed.
 End C06_bridge_tcp_example.
 
+(* ====================================================================== Part H: a DIALLED connection *)
+(* The case a 20 000-scenario run reported as a false alarm (reason 1) of the judge as it was before it told
+   dialled from accepted connections (that the former judge answered non-zero here is not re-proved: it no longer
+   exists).  Listener 10.0.0.1 (UDP 5060, TCP 5062) of Part G; the peer 10.0.0.7:5090 accepts connections.
+     event 0  a datagram from 10.0.0.9:5070, Route: <sip:10.0.0.7:5090;transport=tcp;lr>: the proxy DIALS
+              10.0.0.7:5090 (connection 0) and writes the request on it (10.0.0.7 not learned: no own Via);
+     event 1  the peer sends a request of its own ON THAT CONNECTION (Route: 10.0.0.9:5070): its address
+              10.0.0.7 is learned with the connection's own transport (KTcpConn, listener address, port 0);
+              the request is relayed to 10.0.0.9:5070 with the UDP listener on top (10.0.0.9: learned at event 0);
+     event 2  a second datagram routed to 10.0.0.7:5090;transport=tcp: written on connection 0 with the own Via
+              "SIP/2.0/TCP 10.0.0.1" and the own Record-Route "<sip:10.0.0.1;lr>", both WITHOUT a port.
+   The judge (its bookkeeping stepped by js_step_c through the events, fed with what the run shows) answers 0
+   on the three events; it answers 1 when the own Via of event 2 carries the listener's TCP port or another
+   address, and 2 when the own Record-Route carries the TCP port. *)
+Module C06_dialled_example.
+Import C06_bridge_example C06_bridge_tcp_example.
+
+Definition d6_peers : list (bytes * Z) := [(s2b "10.0.0.7", 5090%Z)].
+Definition d6_pc : proxy_case :=
+  {| pc_cfg := t6_cfg; pc_tcp_listeners := d6_peers;
+     pc_udp_endpoints := [(s2b "10.0.0.9", 5070%Z)]; pc_events := []; pc_waits := [] |}.
+Definition d6_st0 : state := init_state t6_cfg 0 d6_peers.
+Definition d6_req (branch callid : string) : bytes :=
+  s2b "INVITE sip:bob@elsewhere.example SIP/2.0" ++ crlf ++
+  s2b "Route: <sip:10.0.0.7:5090;transport=tcp;lr>" ++ crlf ++
+  s2b "Via: SIP/2.0/UDP 10.0.0.9:5070;branch=" ++ s2b branch ++ crlf ++
+  s2b "Record-Route: <sip:10.0.0.8:5071;lr>" ++ crlf ++
+  s2b "From: <sip:alice@a.example.com>;tag=1" ++ crlf ++
+  s2b "To: <sip:svc@example.com>" ++ crlf ++
+  s2b "Call-ID: " ++ s2b callid ++ crlf ++
+  s2b "CSeq: 7 INVITE" ++ crlf ++
+  s2b "Content-Length: 3" ++ crlf ++ crlf ++ s2b "abc".
+(* what the peer sends back on the connection the proxy opened *)
+Definition d6_back : bytes :=
+  s2b "OPTIONS sip:alice@a.example.com SIP/2.0" ++ crlf ++
+  s2b "Route: <sip:10.0.0.9:5070;lr>" ++ crlf ++
+  s2b "Via: SIP/2.0/TCP 10.0.0.7:5090;branch=z9hG4bKpeer" ++ crlf ++
+  s2b "From: <sip:peer@b.example.com>;tag=9" ++ crlf ++
+  s2b "To: <sip:alice@a.example.com>" ++ crlf ++
+  s2b "Call-ID: call-back@peer" ++ crlf ++
+  s2b "CSeq: 1 OPTIONS" ++ crlf ++
+  s2b "Content-Length: 0" ++ crlf ++ crlf.
+Definition d6_ev0 : event := EvUdp 0 (s2b "10.0.0.9") 5070%Z (d6_req "z9hG4bKone" "call-1@host").
+Definition d6_ev1 : event := EvTcpData 0 d6_back.
+Definition d6_ev2 : event := EvUdp 0 (s2b "10.0.0.9") 5070%Z (d6_req "z9hG4bKtwo" "call-2@host").
+(* the model, event after event (the branch handed to the step is the one the judge expects) *)
+Definition d6_run (st : state) (n : nat) (ev : event) : state * list output :=
+  match proxy_step all_fixed t6_cfg 1000 (branch_of n) st ev with Ok r => r | _ => (st, []) end.
+Definition d6_st1 : state := fst (d6_run d6_st0 0 d6_ev0).
+Definition d6_outs0 : list output := snd (d6_run d6_st0 0 d6_ev0).
+Definition d6_st2 : state := fst (d6_run d6_st1 1 d6_ev1).
+Definition d6_outs1 : list output := snd (d6_run d6_st1 1 d6_ev1).
+Definition d6_st3 : state := fst (d6_run d6_st2 2 d6_ev2).
+Definition d6_outs2 : list output := snd (d6_run d6_st2 2 d6_ev2).
+(* the judge's bookkeeping, from the events and what the run shows (nothing closed) *)
+Definition d6_js0 : jstate := js_init t6_cfg.
+Definition d6_js1 : jstate := js_step_c d6_js0 d6_ev0 (map B13.labelled d6_outs0) [].
+Definition d6_js2 : jstate := js_step_c d6_js1 d6_ev1 (map B13.labelled d6_outs1) [].
+
+Example d6_steps_ok :
+  proxy_step all_fixed t6_cfg 1000 (branch_of 0) d6_st0 d6_ev0 = Ok (d6_st1, d6_outs0) /\
+  proxy_step all_fixed t6_cfg 1000 (branch_of 1) d6_st1 d6_ev1 = Ok (d6_st2, d6_outs1) /\
+  proxy_step all_fixed t6_cfg 1000 (branch_of 2) d6_st2 d6_ev2 = Ok (d6_st3, d6_outs2).
+Proof. split; [|split]; vm_compute; reflexivity. Qed.
+(* event 0 dials and writes; event 1 relays to the datagram peer; event 2 writes on the open connection *)
+Example d6_labels :
+  map (fun o => fst (B13.labelled o)) d6_outs0 = [s2b "dial:10.0.0.7:5090"; s2b "conn:0"] /\
+  map (fun o => fst (B13.labelled o)) d6_outs1 = [s2b "udp:10.0.0.9:5070"] /\
+  map (fun o => fst (B13.labelled o)) d6_outs2 = [s2b "conn:0"].
+Proof. split; [|split]; vm_compute; reflexivity. Qed.
+(* the model's record of connection 0 is a dialled one and 10.0.0.7 is learned with ITS transport (port 0);
+   the judge's bookkeeping says the same with the mark *)
+Example d6_learned :
+  alookup (s2b "10.0.0.7") (st_learned d6_st2) = Some {| t_kind := KTcpConn; t_addr := s2b "10.0.0.1"; t_port := 0 |} /\
+  conn_dialled d6_js1 0 = true /\
+  alookup (s2b "10.0.0.7") (js_learned d6_js2) = Some (dial_mark, true) /\
+  jident_of t6_cfg dial_mark true = Some (s2b "TCP", s2b "10.0.0.1", 0%Z) /\
+  agree_learned t6_cfg (js_learned d6_js2) (st_learned d6_st2).
+Proof.
+  split; [vm_compute; reflexivity|]. split; [vm_compute; reflexivity|]. split; [vm_compute; reflexivity|].
+  split; [vm_compute; reflexivity|].
+  assert (EJ : js_learned d6_js2 = [(s2b "10.0.0.9", (0%nat, false)); (s2b "10.0.0.7", (dial_mark, true))])
+    by (vm_compute; reflexivity).
+  assert (EM : st_learned d6_st2 = [(s2b "10.0.0.9", B13.udp_transport t6_lc);
+                                    (s2b "10.0.0.7", {| t_kind := KTcpConn; t_addr := s2b "10.0.0.1"; t_port := 0 |})])
+    by (vm_compute; reflexivity).
+  intros h. rewrite EJ, EM. cbn [alookup].
+  destruct (beq h (s2b "10.0.0.9")); [vm_compute; reflexivity|].
+  destruct (beq h (s2b "10.0.0.7")); [vm_compute; reflexivity|exact I].
+Qed.
+(* what is written at event 2: the own Via and the own Record-Route entry carry NO port *)
+Example d6_out_via :
+  map (fun o => option_map (fun om => map (fun e => option_map (fun v => (jv_transport v, jv_host v, jv_port v)) (j_via e))
+                                          (j_flat_via (jm_headers om)))
+                           (j_read (snd o))) d6_outs2
+  = [Some [Some (s2b "TCP", s2b "10.0.0.1", None); Some (s2b "UDP", s2b "10.0.0.9", Some 5070%Z)]].
+Proof. vm_compute. reflexivity. Qed.
+Example d6_out_rr :
+  map (fun o => option_map (fun om => j_flat is_rr (jm_headers om)) (j_read (snd o))) d6_outs2
+  = [Some [s2b "<sip:10.0.0.1;lr>"; s2b "<sip:10.0.0.8:5071;lr>"]].
+Proof. vm_compute. reflexivity. Qed.
+
+(* THE JUDGE ACCEPTS the three events (reason code 1 was the false alarm at event 2) *)
+Example C06_dialled_ex :
+  judge_C06_event d6_pc d6_js0 d6_ev0 (map B13.labelled d6_outs0) [] = 0%nat /\
+  judge_C06_event d6_pc d6_js1 d6_ev1 (map B13.labelled d6_outs1) [] = 0%nat /\
+  judge_C06_event d6_pc d6_js2 d6_ev2 (map B13.labelled d6_outs2) [] = 0%nat /\
+  j_run judge_C06_event d6_pc d6_js0 [d6_ev0; d6_ev1; d6_ev2]
+        [(map B13.labelled d6_outs0, []); (map B13.labelled d6_outs1, []); (map B13.labelled d6_outs2, [])] = None.
+Proof. repeat match goal with |- _ /\ _ => split end; vm_compute; reflexivity. Qed.
+
+(* SENSITIVITY: the first occurrence of [pat] in [s] replaced by [rep] *)
+Fixpoint d6_subst (pat rep s : bytes) : bytes :=
+  match s with
+  | [] => []
+  | c :: r => if has_prefix pat s then rep ++ skipn (List.length pat) s else c :: d6_subst pat rep r
+  end.
+Definition d6_edit (pat rep : string) : list (bytes * bytes) :=
+  map (fun o => (fst (B13.labelled o), d6_subst (s2b pat) (s2b rep) (snd (B13.labelled o)))) d6_outs2.
+(* the edits do change the bytes: the own Via / Record-Route texts are where the examples above show them *)
+Example d6_edits_differ :
+  map (fun p => forallb (fun '(a, b) => beq (snd a) (snd b)) (combine (d6_edit (fst p) (snd p)) (map B13.labelled d6_outs2)))
+      [("SIP/2.0/TCP 10.0.0.1;", "SIP/2.0/TCP 10.0.0.1:5062;"); ("SIP/2.0/TCP 10.0.0.1;", "SIP/2.0/TCP 10.0.0.2;");
+       ("<sip:10.0.0.1;lr>", "<sip:10.0.0.1:5062;lr>")]%string
+  = [false; false; false].
+Proof. vm_compute. reflexivity. Qed.
+(* own Via with the listener's TCP port (what the former judge demanded): rejected, reason 1; own Via with
+   another address: reason 1; own Record-Route with the TCP port: reason 2 *)
+Example C06_dialled_ex_sensitive :
+  judge_C06_event d6_pc d6_js2 d6_ev2 (d6_edit "SIP/2.0/TCP 10.0.0.1;" "SIP/2.0/TCP 10.0.0.1:5062;") [] = 1%nat /\
+  judge_C06_event d6_pc d6_js2 d6_ev2 (d6_edit "SIP/2.0/TCP 10.0.0.1;" "SIP/2.0/TCP 10.0.0.2;") [] = 1%nat /\
+  judge_C06_event d6_pc d6_js2 d6_ev2 (d6_edit "<sip:10.0.0.1;lr>" "<sip:10.0.0.1:5062;lr>") [] = 2%nat.
+Proof. repeat match goal with |- _ /\ _ => split end; vm_compute; reflexivity. Qed.
+(* ... and the port-less form is accepted for hosts learned over a DIALLED connection only: the same output
+   judged with a bookkeeping in which connection 0 is an accepted one (10.0.0.7 learned through the TCP
+   listener: identity 10.0.0.1:5062) is rejected *)
+Definition d6_js1_acc : jstate := js_step_c d6_js0 (EvTcpAccept 0 (s2b "10.0.0.7") 5090%Z) [] [].
+Definition d6_js2_acc : jstate := js_step_c d6_js1_acc d6_ev1 (map B13.labelled d6_outs1) [].
+Example C06_dialled_ex_only_dialled :
+  conn_dialled d6_js1_acc 0 = false /\
+  alookup (s2b "10.0.0.7") (js_learned d6_js2_acc) = Some (0%nat, true) /\
+  judge_C06_event d6_pc d6_js2_acc d6_ev2 (map B13.labelled d6_outs2) [] = 1%nat.
+Proof. repeat match goal with |- _ /\ _ => split end; vm_compute; reflexivity. Qed.
+End C06_dialled_example.
+
 Print Assumptions C06_outputs_tcp.
 Print Assumptions hop_agree_g.
 Print Assumptions j_learn_agree_tcp.
@@ -947,3 +1108,5 @@ Print Assumptions C06_tcp_accept_records.
 Print Assumptions C06_bridge_tcp_example.C06_bridge_tcp_ex.
 Print Assumptions C06_bridge_tcp_example.C06_bridge_tcp_msg_ex.
 Print Assumptions C06_bridge_tcp_example.C06_agree_tcp_ex.
+Print Assumptions C06_dialled_example.C06_dialled_ex.
+Print Assumptions C06_dialled_example.C06_dialled_ex_sensitive.
